@@ -945,6 +945,19 @@ def r6_arithmetic(check, prog, canon):
             ok = ok and any(c[1] == ('attr', s, 'transformation') and c[2] and
                             c[2][0][0] == 'star' for c in subterms(t2) if c[0] == 'call') \
                 and bool(calls_in(t2, 'zip'))
+    # a constant among the operands takes part in every sample set as it is: an
+    # array-valued constant (arr * p, np.hypot(p, [3, 4])) that goes through
+    # np.repeat / np.tile without an axis is flattened into its elements, and the
+    # zip over the sample sets then pairs draw k with element k of the flat copy
+    if ok:
+        flat = [c for c in subterms(t2) if c[0] == 'call' and c[1] in (
+            'numpy.repeat', 'numpy.tile', 'numpy.full') and c[2] and
+            c[2][0][0] == 'elem' and not dict(c[3]).get('axis')]
+        check.require(not flat, 'R6-constants-repeated-whole', 'TransformedPrior.sample',
+                      'a constant operand is handed to every sample set whole', loc,
+                      fail_detail='%s flattens an array-valued constant: (np.array([10., '
+                      '20.]) * p).sample(3) has shape (3,) and multiplies every draw by '
+                      '10' % show(flat[0])[:60] if flat else '')
     check.require(ok, 'R6-transformed-sample', 'TransformedPrior.sample',
                   'samples = transformation applied to the base samples, set by set',
                   loc, fail_detail='returns %s' % [show(o.value)[:120] for o in rets])
